@@ -3,7 +3,7 @@ replay of every generated server script on the real ClientChannel -> HsObs.tla
 monitor (client operators) over the recorded histories."""
 import vlib
 
-TOGGLES = ["FixRegress"]
+TOGGLES = ["FixRegress", "FixRcvErrRelease"]
 
 
 def model_cfg(tier, tg, with_invariants):
